@@ -412,6 +412,38 @@ func TestConcurrent(t *testing.T) {
 			})
 			res.PerMix["merge-distinct-non-module-files"]++
 		}
+		// E3: one shared list of many files, several of them broken in different ways (syntax errors in more than one
+		// file, a file that is no module, a type defined twice): whatever a single call does internally per file - and
+		// per failing file - happens here several times at once
+		{
+			var files []transformer.ModuleFile
+			n := 8 + r.Intn(5)
+			for k := 0; k < n; k++ {
+				body := fmt.Sprintf("module m%d\ntype t%d_%d\n  relations\n    define r: [t%d_%d]\n", k%3, k, r.Intn(50), k, r.Intn(50))
+				switch {
+				case k%4 == 1:
+					body += "type broken\n  relations\n    define x: [" // syntax error
+				case k%5 == 2:
+					body = "module m\ntype $bad\n" // lexer error
+				case k == 7:
+					body = "model\n  schema 1.1\ntype nomod\n"
+				case k == 6:
+					body += "type dup\n"
+				case k == 3:
+					body += "type dup\n"
+				}
+				files = append(files, transformer.ModuleFile{Name: fmt.Sprintf("many-%d.fga", k), Contents: body})
+			}
+			want := mergeKey(append([]transformer.ModuleFile{}, files...))
+			res.OverlappingPairs += barrierRun(workers, func(w int) {
+				got := mergeKey(files)
+				atomic.AddInt64(&calls, 1)
+				if got != want {
+					report(mismatch{Mix: "merge-many-files-several-broken", Detail: "concurrent merge differs from the sequential one", Texts: []string{files[1].Contents}, Expected: want, Observed: got})
+				}
+			})
+			res.PerMix["merge-many-files-several-broken"]++
+		}
 		// G: validators and fga.mod
 		{
 			strs := []string{"document:1", "group:eng#member", "user:*", "a b", "x:y#z w", "t:" + fmt.Sprint(r.Intn(1000))}
